@@ -302,8 +302,8 @@ func (e *endpoint) Write(p tcpip.Payload, opts tcpip.WriteOptions) (uintptr, <-c
 		return 0, nil, tcpip.ErrInvalidOptionValue
 	}
 
-	// 如果报文长度超过65535，将会超过UDP最大的长度表示，这是不允许的。
-	if p.Size() > math.MaxUint16 {
+	// 如果报文长度(加上8字节UDP首部)超过65535，将会超过UDP最大的长度表示，这是不允许的。
+	if p.Size() > math.MaxUint16-header.UDPMinimumSize {
 		// Payload can't possibly fit in a packet.
 		return 0, nil, tcpip.ErrMessageTooLong
 	}
